@@ -4,5 +4,6 @@ NoNext == FALSE /\ UNCHANGED vars
 Bound == Len(gets) <= 2
 EmitScn == gets = <<>> => PrintT(<<"SCN", ToJson([scn |-> scn])>>)
 Init == \E i \in {"aiohttp", "flask"}, k \in {"openapi31", "openapi30", "openrpc"}, e \in {"main", "main+api", "main+late"}, b \in {"/rpc", "/v1/rpc"} :
-           InitWith([integ |-> i, kind |-> k, endpoints |-> e, base |-> b])
+           \/ InitWith([integ |-> i, kind |-> k, endpoints |-> e, base |-> b, ui |-> "none"])
+           \/ \E u \in {"swagger", "rapidoc", "redoc"} : k # "openrpc" /\ e = "main" /\ InitWith([integ |-> i, kind |-> k, endpoints |-> e, base |-> b, ui |-> u])
 =============================================================================
